@@ -59,8 +59,10 @@ class IMachine(VecMachine):
         if k == 'Bin' and e['op'] in ('==', '!='):
             l, r = self.ev(e['lhs']), self.ev(e['rhs'])
             if isinstance(l, Node) or isinstance(r, Node):
-                same = (l is r) or (not isinstance(l, Node) and not isinstance(r, Node) and l == r)
-                return int(same == (e['op'] == '=='))
+                same = (l is r)
+            else:
+                same = (l == r)
+            return int(bool(same) == (e['op'] == '=='))
         return super().ev(e)
 
     def call_body(self, a, c, args, this_env=None):
